@@ -108,7 +108,12 @@ class Multiplication:
     cpy = segment.clone()
     cpy.name = clone_name
     cpy.connect(self)
+    cloned = []
     for l in segment.dovetails + segment.containments:
+      # (an edge of the segment with itself is listed twice)
+      if any(l is x for x in cloned):
+        continue
+      cloned.append(l)
       lc = l.clone()
       if lc.from_segment == segment.name:
         lc.from_segment = clone_name
